@@ -334,6 +334,130 @@ Proof.
   rewrite (spec_row_none_dispatch opc H). reflexivity.
 Qed.
 
+(* ================================================================ ill-formed expressions *)
+(* what the implementation raises for the two reasons: dict lookup / read_blob *)
+Definition bad_err (w : why_bad) : err :=
+  match w with NotAnOperation => EPy "KeyError" | BlockTruncated => EParse end.
+
+(* an error behind well-formed operations is the error of the whole expression *)
+Lemma prefix_err c : cfg_ok c = true -> forall pre bad e,
+  wf_ops c pre = true ->
+  (forall f pos, (length bad <= f)%nat -> parse_expr_fuel (S f) c bad pos = Err e) ->
+  forall f pos, (length (encode_ops c pre ++ bad) <= f)%nat ->
+  parse_expr_fuel (S f) c (encode_ops c pre ++ bad) pos = Err e.
+Proof.
+  intros Hc pre bad e. induction pre as [|x r IH]; intros Hw Hbad f pos Hf.
+  - apply Hbad. exact Hf.
+  - cbn [wf_ops forallb] in Hw. apply andb_prop in Hw. destruct Hw as [Hwx Hwr].
+    rewrite encode_ops_cons in *. rewrite <- app_assoc in *.
+    rewrite (step_ok_all c Hc x Hwx f (encode_ops c r ++ bad) pos Hf).
+    rewrite app_length in Hf. pose proof (encode_op_nonempty c x) as Hne.
+    destruct f as [|f']; [lia|].
+    rewrite (IH Hwr Hbad f' (pos + zlen (encode_op c x))) by lia.
+    reflexivity.
+Qed.
+
+Lemma bad_opcode_err c opc rest f pos :
+  spec_row opc = None -> parse_expr_fuel (S f) c (opc :: rest) pos = Err (EPy "KeyError").
+Proof.
+  intros H. cbn [parse_expr_fuel]. rewrite (spec_row_none_dispatch opc H). reflexivity.
+Qed.
+
+Lemma is_block_eq ks : is_block ks = true -> ks = [BLOCK].
+Proof.
+  destruct ks as [|k [|k2 r]]; try discriminate; destruct k; try discriminate. reflexivity.
+Qed.
+
+(* read_blob on a stream shorter than the announced length *)
+Lemma trunc_err c opc n ks lenc size body f pos :
+  spec_row opc = Some (n, ks) -> is_nested ks || is_block ks = true ->
+  uleb_ok lenc size = true -> zlen body < size ->
+  parse_expr_fuel (S f) c (opc :: lenc ++ body) pos = Err EParse.
+Proof.
+  intros Erow Hk Hl Hlt. destruct (spec_row_dispatch opc n ks Erow) as [Hd _].
+  cbn [parse_expr_fuel]. rewrite Hd.
+  assert (Hb : read_blob size body = Err EParse).
+  { unfold read_blob. destruct (Z.ltb_spec (zlen body) size) as [_|Hge]; [reflexivity|lia]. }
+  apply orb_prop in Hk. destruct Hk as [Hk|Hk].
+  - apply is_nested_eq in Hk. subst ks. cbn [parse_args parse_kind]. unfold struct_parse.
+    rewrite (uleb_ok_decode lenc size body Hl). cbn [of_opt bind]. rewrite Hb. reflexivity.
+  - apply is_block_eq in Hk. subst ks. cbn [parse_args parse_kind]. unfold struct_parse.
+    rewrite (uleb_ok_decode lenc size body Hl). cbn [of_opt bind]. rewrite Hb. reflexivity.
+Qed.
+
+(* an error of the nested parse is the error of the enclosing expression *)
+Lemma inner_err c opc n lenc body rest e :
+  spec_row opc = Some (n, [NESTED]) -> uleb_ok lenc (zlen body) = true ->
+  (forall f pos, (length body <= f)%nat -> parse_expr_fuel (S f) c body pos = Err e) ->
+  forall f pos, (length (opc :: lenc ++ body ++ rest) <= f)%nat ->
+  parse_expr_fuel (S f) c (opc :: lenc ++ body ++ rest) pos = Err e.
+Proof.
+  intros Erow Hl Hbody f pos Hf. destruct (spec_row_dispatch opc n _ Erow) as [Hd _].
+  cbn [parse_expr_fuel]. rewrite Hd.
+  cbn [parse_args parse_kind]. unfold struct_parse.
+  rewrite (uleb_ok_decode lenc (zlen body) _ Hl). cbn [of_opt bind].
+  rewrite read_blob_app. cbn [bind].
+  cbn [length] in Hf. rewrite !app_length in Hf.
+  destruct f as [|f']; [lia|].
+  rewrite (Hbody f' 0) by lia. reflexivity.
+Qed.
+
+Lemma bad_rejected_fuel c : cfg_ok c = true -> forall b, wf_bad c b = true ->
+  forall f pos, (length (encode_bad c b) <= f)%nat ->
+  parse_expr_fuel (S f) c (encode_bad c b) pos = Err (bad_err (why_of b)).
+Proof.
+  intros Hc b. induction b as [pre opc rest|pre opc lenc size body|pre opc lenc inner IH rest];
+    intros Hw f pos Hf; cbn [wf_bad] in Hw; cbn [encode_bad why_of] in *.
+  - apply andb_prop in Hw. destruct Hw as [Hpre Hrow].
+    destruct (spec_row opc) as [row|] eqn:Erow; [discriminate|].
+    apply (prefix_err c Hc pre (opc :: rest)); auto.
+    intros f0 pos0 _. apply bad_opcode_err. exact Erow.
+  - apply andb_prop in Hw. destruct Hw as [Hw Hlt]. apply andb_prop in Hw. destruct Hw as [Hw Hl].
+    apply andb_prop in Hw. destruct Hw as [Hpre Hrow].
+    destruct (spec_row opc) as [[n ks]|] eqn:Erow; [|discriminate].
+    apply (prefix_err c Hc pre (opc :: lenc ++ body)); auto.
+    intros f0 pos0 _. apply (trunc_err c opc n ks lenc size body f0 pos0 Erow Hrow Hl). lia.
+  - apply andb_prop in Hw. destruct Hw as [Hw Hin]. apply andb_prop in Hw. destruct Hw as [Hw Hl].
+    apply andb_prop in Hw. destruct Hw as [Hpre Hrow].
+    destruct (spec_row opc) as [[n ks]|] eqn:Erow; [|discriminate].
+    apply is_nested_eq in Hrow. subst ks.
+    apply (prefix_err c Hc pre (opc :: lenc ++ encode_bad c inner ++ rest)); auto.
+    apply (inner_err c opc n lenc (encode_bad c inner) rest _ Erow Hl).
+    intros f0 pos0 Hf0. apply IH; auto.
+Qed.
+
+(* the accept/reject boundary: an expression with a byte that is not an operation in
+   opcode position, or with an entry-value / implicit-value block announced longer
+   than what is left, at any nesting depth and behind any well-formed operations,
+   is refused -- never reported as some other sequence of operations *)
+Theorem illformed_rejected c b :
+  cfg_ok c = true -> wf_bad c b = true ->
+  parse_expr c (encode_bad c b) = Err (bad_err (why_of b)).
+Proof.
+  intros Hc Hw. unfold parse_expr. apply bad_rejected_fuel; auto.
+Qed.
+
+(* the entry_value block of C16's block_truncated: the simplest instance *)
+Theorem nested_truncated c opc n lenc size body :
+  cfg_ok c = true -> spec_row opc = Some (n, [NESTED]) ->
+  uleb_ok lenc size = true -> zlen body < size ->
+  parse_expr c (opc :: lenc ++ body) = Err EParse.
+Proof.
+  intros Hc Erow Hl Hlt. unfold parse_expr.
+  apply (trunc_err c opc n [NESTED] lenc size body _ 0 Erow); auto.
+Qed.
+
+(* parse_expr is a function of (configuration, bytes): whatever was parsed before on the
+   same parser, the i-th call returns the expected parse of the i-th expression *)
+Theorem parse_history c calls :
+  cfg_ok c = true -> forallb (wf_ops c) calls = true ->
+  map (fun ops => parse_expr c (encode_ops c ops)) calls =
+  map (fun ops => Ok (annotate c ops)) calls.
+Proof.
+  intros Hc Hw. apply map_ext_in. intros ops Hin.
+  rewrite forallb_forall in Hw. apply expr_roundtrip; auto.
+Qed.
+
 (* ================================================================ re-encoding *)
 Lemma list_eqb_eq a : forall b, list_eqb a b = true -> a = b.
 Proof.
